@@ -30,24 +30,32 @@ CHECKS = {
                      "analysis + syntax-directed monotonicity analysis",
     },
     "C10": {
-        "text": "NARROW: decides the clauses of the simulation contract "
-                "that are shapes of the code: at most 5 integration cycles "
-                "(counter increments once per round before the exit test; a "
-                "new round only through its False outcome), multi-row "
-                "results returned only under the finished flag with every "
-                "row passing _is_ok (exact definition of _is_ok checked), "
-                "control slots written only by controller(state, time of "
-                "the same row), the failure row and the time column, and "
-                "that j_from_ode allocates exactly as many cells as the "
-                "compute kernel stores (trip counts summed; polynomial "
-                "identity).",
-        "design_ref": "DESIGN.md section 4, C10",
-        "note": "Does NOT decide termination inside scipy's RK45, strict "
-                "monotonicity of float times, agreement with analytic "
-                "solutions, or the value/sign of J.",
-        "technique": "CFG must-pass-through / edge-restricted "
-                     "reachability + loop trip-count summation "
-                     "(polynomial identity)",
+        "text": "Decides the clauses of the simulation contract that are "
+                "shapes of the code: at most 5 integration cycles; rows are "
+                "returned only behind the finished flag and the bound "
+                "tracker, every row is tested as a whole by _is_ok (exact "
+                "definition checked) and a not-ok outcome can never be "
+                "returned; row 0 holds the starting state; every row's "
+                "controls come from controller(state, time) of that row; "
+                "a row's state comes from an interpolator whose range "
+                "contains its time (search starts at 0, advances, is "
+                "bounds-checked and leaves when exhausted); the integration "
+                "cycle protocol (reset, one step per round, interpolator "
+                "collected unless out of bounds, no step after finished); "
+                "the failure row and time column; and the figure of merit: "
+                "every term of J (previous-row value squared times the time "
+                "step, gamma on controls, first states skipped), its cell "
+                "discipline, dest sizing and J = sum / simulated time.",
+        "design_ref": "DESIGN.md section 4, C10 and 10.2",
+        "note": "Does NOT decide termination/accuracy inside scipy's RK45, "
+                "strict monotonicity of float times, agreement with "
+                "analytic solutions, or the numeric heuristics that shorten "
+                "the time frame after a failed cycle.",
+        "technique": "statement CFG with labelled test outcomes: dominance "
+                     "and avoiding-path queries per rule; symbolic normal "
+                     "form of the J terms compared by case splitting; "
+                     "call-binding rules; polynomial identity for the "
+                     "buffer size",
     },
     "C07": {
         "text": "Agreement of the TTP error counter with its documented "
